@@ -191,8 +191,7 @@ def r1(rr, repo):
                 if asp is False:
                     rr.ob('video reader resize without aspect: exactly (width, height)', U(W) == 'width' and U(H) == 'height', vmod, e.node, witness=U(size)[:200], key='video-resize-exact')
                 else:
-                    rr.ob('video reader aspect resize: each dimension is the bound itself or the other dimension scaled into it', okw and okh and (U(W) == 'width' or U(H) == 'height' or ('min(' in U(W) and 'min(' in U(H))), vmod, e.node,
-                          witness=U(size)[:200], key=f'video-resize-aspect|{U(W) == "width"}|{U(H) == "height"}')
+                    pass   # the aspect-keeping resize is judged by C17.R8 (result inside the requested box); the shape test that stood here also accepted the forms that leave the box (D17)
     rr.floor('cv2.resize calls reached in the video reader', n, 4, vmod, vfn)
     # sibling agreement on which side is scaled (maxsize): compare the decision structure of the two implementations
     def kind(term, hb, wb):
@@ -610,6 +609,12 @@ def r6(rr, repo):
     for n in unv:
         names = [U(e) for e in n.targets[0].elts]
         rr.ob('video reader: the parsed size is taken apart as (width, aspect, height, interpolation)', names[0].startswith('w') and names[2].startswith('h') and 'asp' in names[1], vmod, n, witness=str(names), key='vsize-unpack')
+        sep = names[1]
+        conv = [a for a in ast.walk(vfn) if isinstance(a, ast.Assign) and len(a.targets) == 1 and U(a.targets[0]) == sep and isinstance(a.value, ast.Compare) and U(a.value.left) == sep and q.const_str(a.value.comparators[0])]
+        okc = len(conv) == 1 and ((isinstance(conv[0].value.ops[0], ast.NotEq) and conv[0].value.comparators[0].value == '+') or (isinstance(conv[0].value.ops[0], ast.Eq) and conv[0].value.comparators[0].value.lower() == 'x'))
+        rr.ob("video reader: the aspect mode is on exactly when the separator is 'x' (not '+')", okc, vmod, conv[0] if conv else n, witness=U(conv[0].value) if conv else 'no conversion of the separator into a flag', key='vsize-aspect')
+        ints = {U(a.targets[0]): U(a.value) for a in ast.walk(vfn) if isinstance(a, ast.Assign) and len(a.targets) == 1 and isinstance(a.value, ast.Call) and U(a.value.func) == 'int'}
+        rr.ob('video reader: the first number is the width bound, the second the height bound', ints.get(names[0]) == f'int({names[0]})' and ints.get(names[2]) == f'int({names[2]})', vmod, n, witness=str(ints), key='vsize-fields')
 
 
 @rule('C17.R7', "a chain of transforms is applied in the order it was configured: every topic's chain starts empty and is filled by ONE pass over the configured list (all-topics and topic-specific transforms "
@@ -643,3 +648,93 @@ def r7(rr, repo):
     # execute_xforms walks the chain in order
     ex = [n for n in walk_scope(exe) if isinstance(n, ast.For) and U(n.iter).endswith('.xforms')]
     rr.ob('execute_xforms applies the chain front to back (plain iteration over the list)', len(ex) == 1, mod, ex[0] if ex else exe, witness='; '.join(U(n.iter) for n in walk_scope(exe) if isinstance(n, ast.For))[:100], key='chain-executed-in-order')
+
+
+def _vfactor(core, dim_term, W='width', H='height', w='image.shape[1]', h='image.shape[0]'):
+    """video reader terms: which ratio scales the frame dimension `dim_term` in core: 'id' | 'wr' | 'hr' | 'min' | 'max' | 'bound-w' | 'bound-h' | None"""
+    t = U(core).replace(' ', '')
+    if t == dim_term:
+        return 'id'
+    if t == W:
+        return 'bound-w'
+    if t == H:
+        return 'bound-h'
+    if not (isinstance(core, ast.Call) and U(core.func) == 'int' and len(core.args) == 1):
+        return None
+    e = U(core.args[0]).replace(' ', '')
+    wr, hr = f'{W}/{w}', f'{H}/{h}'
+    if e == f'{dim_term}*{wr}':
+        return 'wr'
+    if e == f'{dim_term}*{hr}':
+        return 'hr'
+    for f in ('min', 'max'):
+        if e in (f'{dim_term}*{f}({wr},{hr})', f'{dim_term}*{f}({hr},{wr})'):
+            return f
+    return None
+
+
+@rule('C17.R8', "the video reader obeys the same size laws: 'maxsize' scales both dimensions by one common ratio and only shrinks; the aspect-keeping 'resize' yields the largest size with the frame's aspect "
+                "INSIDE the requested box - one dimension is set to its bound and the other scaled by the same ratio only when that ratio is the smaller one - and the '+' form yields exactly the requested pair")
+def r8(rr, repo):
+    vmod, vfn, region, vpaths = video_paths(repo)
+    rr.paths += len(vpaths)
+    wt, ht = 'image.shape[1]', 'image.shape[0]'
+    seen = set()
+    for p in vpaths:
+        mx = p.facts.get('truthy(maxsize)')
+        asp = p.facts.get('truthy(aspect)')
+        for e in resize_calls(p):
+            size = e.value.args[1]
+            if not (isinstance(size, ast.Tuple) and len(size.elts) == 2):
+                continue
+            cw, ch = _strip_bounds_v(size.elts[0]), _strip_bounds_v(size.elts[1])
+            fw, fh = _vfactor(cw, wt), _vfactor(ch, ht)
+            if fw is None or fh is None:
+                rr.unresolved('video reader: a dimension handed to cv2.resize is not the frame dimension times a recognised ratio', vmod, e.node, witness=U(size)[:160], key='vaspect-form')
+                continue
+            rel_w = [v for k, v in p.pc if k in (f'ord({wt}, width)',)]
+            rel_h = [v for k, v in p.pc if k in (f'ord(height, {ht})',)]
+            w_over = (rel_w[-1] == '>') if rel_w else None
+            h_over = (rel_h[-1] == '<') if rel_h else None     # ord(height, h) '<' means h > height
+            if mx is True:
+                if asp is False:
+                    rr.ob("video reader maxsize '+': nothing is scaled, each dimension is only bounded", (fw, fh) == ('id', 'id'), vmod, e.node, witness=f'({fw}, {fh})', key='vaspect-off|maxsize')
+                    continue
+                seen.add(('maxsize', fw, fh))
+                rr.ob('video reader maxsize: width and height are scaled by one common ratio (width ratio, height ratio or the min of both)', (fw, fh) in (('id', 'id'), ('id', 'wr'), ('hr', 'id'), ('min', 'min')), vmod, e.node,
+                      witness=f'width x {fw}, height x {fh}', key=f'vaspect|maxsize|{fw}|{fh}')
+            elif mx is False:
+                if asp is False:
+                    rr.ob("video reader resize '+': exactly the requested pair", (fw, fh) == ('bound-w', 'bound-h'), vmod, e.node, witness=U(size)[:80], key='vresize-exact')
+                    continue
+                seen.add(('resize', fw, fh))
+                ok = (fw, fh) in (('min', 'min'), ('id', 'id'))
+                why = f'width x {fw}, height x {fh}'
+                if (fw, fh) == ('bound-w', 'wr'):
+                    # width := bound, height scaled by the width ratio: inside the box only if the width ratio is the smaller one, i.e. the frame is wider than the box (its height being right already)
+                    ok = w_over is True
+                    why += f'; frame wider than the box: {w_over}'
+                elif (fw, fh) == ('hr', 'bound-h'):
+                    ok = h_over is True
+                    why += f'; frame higher than the box: {h_over}'
+                rr.ob("video reader aspect-keeping resize: the result lies inside the requested box (a bound is imposed on one dimension only when the frame exceeds it there; otherwise both are scaled by the smaller ratio or left alone)",
+                      ok, vmod, e.node, witness=why + ' | ' + p.pc_text()[-160:], key=f'vresize|{fw}|{fh}')
+    rr.ob('video reader maxsize has all three rescaling cases', {('maxsize', 'id', 'wr'), ('maxsize', 'hr', 'id'), ('maxsize', 'min', 'min')} <= seen, vmod, vfn, witness=str(sorted(x for x in seen if x[0] == 'maxsize')), key='vaspect-cases|maxsize')
+    rr.ob('video reader aspect-keeping resize has a general case scaled by the smaller ratio', ('resize', 'min', 'min') in seen, vmod, vfn, witness=str(sorted(x for x in seen if x[0] == 'resize')), key='vaspect-cases|resize')
+
+
+def _strip_bounds_v(n):
+    """peel max(1, .) and min(bound, .) wrappers (video reader writes min(width, w))"""
+    while isinstance(n, ast.Call) and isinstance(n.func, ast.Name) and n.func.id in ('max', 'min') and len(n.args) == 2:
+        a, b = n.args
+        if isinstance(a, ast.Constant):
+            n = b
+        elif isinstance(b, ast.Constant):
+            n = a
+        elif U(a) in ('width', 'height') and U(b) not in ('width', 'height'):
+            n = b
+        elif U(b) in ('width', 'height') and U(a) not in ('width', 'height'):
+            n = a
+        else:
+            break
+    return n
